@@ -4,6 +4,7 @@
 #include <cstdlib>
 #include <algorithm>
 #include <cstring>
+#include <optional>
 #include <set>
 #include <thread>
 #include <atomic>
@@ -167,6 +168,23 @@ struct Cfg {
         else if constexpr (I == AFFINE_NN) return typename St::non_owning_data_t(f.backend().get_backend().get_backend());
         else return typename St::non_owning_data_t(f.backend().get_backend());
     }
+    // the flat storage of a field, reached without constructing a view of any layer
+    static const typename Ar::owning_data_t & raw_storage(const covfie::field<B> & f)
+    {
+        if constexpr (I == DIRECT) return f.backend().get_backend();
+        else if constexpr (I == AFFINE_NN) return f.backend().get_backend().get_backend().get_backend();
+        else return f.backend().get_backend().get_backend();
+    }
+    // a field with the same cells as f of which no view has ever been made (the state a field is in after loading or
+    // conversion): whatever a layer sets up when it is first viewed happens inside the worker threads
+    static covfie::field<B> never_viewed_twin(const covfie::field<B> & f)
+    {
+        covfie::field<B> g = make();
+        const auto & src = raw_storage(f);
+        const auto & dst = raw_storage(g);
+        std::memcpy(dst.m_ptr.get(), src.m_ptr.get(), src.m_size * sizeof(src.m_ptr[0]));
+        return g;
+    }
     static void reset(const covfie::field<B> & f)
     {
         auto sv = storage_view(f);
@@ -237,9 +255,9 @@ static double now_s()
 }
 
 template <class C>
-static void explore_config(Report & R, const std::string & pname, const Program & prog, bool shared_view, int bound, uint64_t max_sched)
+static void explore_config(Report & R, const std::string & pname, const Program & prog, bool shared_view, int bound, uint64_t max_sched, bool fresh_field = false)
 {
-    const std::string name = C::name() + "/" + pname + (shared_view ? "/sharedview" : "/ownviews") + "/bound" + (bound < 0 ? std::string("inf") : std::to_string(bound));
+    const std::string name = C::name() + "/" + pname + (shared_view ? "/sharedview" : (fresh_field ? "/ownviews_of_unviewed_field" : "/ownviews")) + "/bound" + (bound < 0 ? std::string("inf") : std::to_string(bound));
     if (!g_filter.empty() && name.find(g_filter) == std::string::npos) return;
     const int T = static_cast<int>(prog.size());
     auto field = C::make();
@@ -259,11 +277,12 @@ static void explore_config(Report & R, const std::string & pname, const Program 
     Sched sched(T);
     Sched::current = &sched;
     std::vector<std::vector<float>> res(T);
+    std::optional<covfie::field<typename C::B>> twin;  // fresh_field: rebuilt for every execution, never viewed before the workers start
     sched.body = [&](int i) {
         if (shared_view) {
             run_program_thread<C>(shared, prog[i], res[i]);
         } else {
-            view_t own(field);
+            view_t own(fresh_field ? *twin : field);
             run_program_thread<C>(own, prog[i], res[i]);
         }
     };
@@ -273,13 +292,14 @@ static void explore_config(Report & R, const std::string & pname, const Program 
         uint64_t h = 1469598103934665603ull;
         for (int i = 0; i < T; ++i)
             for (float f : res[i]) h = fnv_of(f, h);
-        h = fnv_of(C::storage_digest(field), h);
+        h = fnv_of(C::storage_digest(fresh_field ? *twin : field), h);
         (void)x;
         (void)replaying;
         return h;
     };
     auto run_one = [&](const std::vector<int> & prefix, Execution & x) {
         C::reset(field);
+        if (fresh_field) twin.emplace(C::never_viewed_twin(field));
         for (auto & r : res) r.clear();
         g_log.clear();
         g_oob = 0;
@@ -321,7 +341,7 @@ static void explore_config(Report & R, const std::string & pname, const Program 
         std::string why;
         for (int i = 0; i < T && why.empty(); ++i)
             if (res[i] != expect[i]) why = "thread " + std::to_string(i) + " obtained different values than the sequential execution";
-        if (why.empty() && C::storage_digest(field) != expect_storage) why = "final storage differs from the sequential execution";
+        if (why.empty() && C::storage_digest(fresh_field ? *twin : field) != expect_storage) why = "final storage differs from the sequential execution";
         if (why.empty() && g_oob) why = "a storage access outside the field's cells";
         if (why.empty() && x.deadlock) why = "deadlock: every remaining thread waits for a lock / initialisation another waiting thread holds";
         if (why.empty()) {
@@ -413,6 +433,7 @@ static void programs_fn(Report & R, int bound, uint64_t max_sched)
     Program two_one = {{{false, 0, 0}}, {{false, 1, 0}}};
     explore_config<C>(R, "prime_then_same", prime_then_same, true, bound, max_sched);
     explore_config<C>(R, "2x1lookup", two_one, true, bound, max_sched);
+    explore_config<C>(R, "2x1lookup", two_one, false, bound, max_sched, true);
     if (g_fn_thorough) {
         explore_config<C>(R, "one_vs_twice", one_vs_twice, true, bound, max_sched);
         explore_config<C>(R, "prime_then_same", prime_then_same, false, bound, max_sched);
@@ -713,6 +734,27 @@ static void free_run(Report & R, int T)
     ++R.nontrivial;
     for (int t = 0; t < T; ++t)
         if (bad[t]) R.viol("free:" + C::name(), "thread " + std::to_string(t) + " read a value different from the sequential one", C::name() + "/free/T" + std::to_string(T));
+    // second phase: a field nobody has viewed yet (as after loading or conversion); every thread makes its own view
+    for (int round = 0; round < 20; ++round) {
+        C::reset(field);
+        auto twin = C::never_viewed_twin(field);
+        std::vector<std::thread> th2;
+        std::vector<int> bad2(T, 0);
+        std::atomic<int> ready{0};
+        for (int t = 0; t < T; ++t) {
+            th2.emplace_back([&, t] {
+                ready.fetch_add(1);
+                while (ready.load() < T) {}
+                view_t own(twin);
+                for (int k = 0; k < 6; ++k)
+                    if (own.at(C::reader_coord(k))[0] != expect[k]) ++bad2[t];
+            });
+        }
+        for (auto & x : th2) x.join();
+        ++R.evaluations;
+        for (int t = 0; t < T; ++t)
+            if (bad2[t]) R.viol("free_unviewed:" + C::name(), "thread " + std::to_string(t) + " read a value different from the sequential one through its own view of a field not viewed before", C::name() + "/free_unviewed/T" + std::to_string(T));
+    }
 }
 template <class L, size_t N>
 static void free_interps(Report & R, int T)
